@@ -415,7 +415,9 @@ impl<'a> Oracle<'a> {
         for (k, e) in &exp.store {
             let a = &act.store[k];
             if a.value != e.value {
-                return fail("C01", format!("stored value of {k} is {:?}, expected {:?}", a.value, e.value));
+                // a store that did not replace the value: besides C01 this breaks "the fresh result replaces the stale
+                // entry" (C11) -- marked for the --prop filter
+                return fail("C01", format!("stored value of {k} is {:?}, expected {:?} [value not replaced]", a.value, e.value));
             }
             if !self.birth_ok(e.birth, a.birth) {
                 // an entry that was just (re-)stored must carry a fresh birth time: besides the TTL rule this breaks the
@@ -1170,6 +1172,7 @@ fn run_config(eng: &dyn Engine, cfg: &Config, seed: u64, iters: usize, max_ops: 
                     p != v.prop
                         && !(v.what.contains("[lost entry]") && ["C01", "C03", "C09", "C10", "C11"].contains(&p.as_str()))
                         && !(v.what.contains("[stale refresh]") && ["C11", "C20"].contains(&p.as_str()))
+                        && !(v.what.contains("[value not replaced]") && p == "C11")
                 }) =>
             {
                 res.ops += v.step as u64;
